@@ -147,8 +147,10 @@ ModeEstimator.replay = estimator_replay("mode")
 
 # ------------------------------------------------------------------------------------------------------------------
 # the kept-sample loop
-Val = z3.DeclareSort("StateValue")
-READ = z3.Function("state_value", z3.StringSort(), z3.IntSort(), Val)     # ghost: value of a variable after `clock` sampler calls
+# ghost: entry i of the value of a variable after `clock` sampler calls (values carry the individual axis; real entries, so that any
+# arithmetic the code might apply to a draw before recording it is seen)
+READ = z3.Function("state_value", z3.StringSort(), z3.IntSort(), z3.IntSort(), z3.RealSort())
+N_IND = z3.Int("n_individuals_in_state")
 
 
 class GhostState(Symbolic):
@@ -160,7 +162,8 @@ class GhostState(Symbolic):
     def read(self, name):
         g = self.cx.ghost
         g.setdefault("reads", []).append((name, g.get("clock", 0)))
-        return SV(READ(z3.StringVal(name), z3.IntVal(g.get("clock", 0))), "u:Val")
+        clk = g.get("clock", 0)
+        return STensor((N_IND,), lambda idx, name=name, clk=clk: READ(z3.StringVal(name), z3.IntVal(clk), idx[0]), "real", name=f"{name}@{clk}")
 
     def _getitem(self, it, k, node=None):
         return self.read(k)
@@ -239,9 +242,11 @@ def kept_iter_post(cx, env, snap, k, view):
     for h in g["histories"]:
         new = h.rows[snap["rows"][h.label]:]
         burn_ok.append(len(new) == 0)
-        ok = len(new) == 1 and isinstance(new[0][0], SV) and new[0][0].kind == "u:Val"
-        kept_ok.append(z3.BoolVal(False) if not ok else new[0][0].e == READ(z3.StringVal(want[h.label]), z3.IntVal(after)))
-    res.append(("past the burn-in: one draw per variable (+ attachment, regularity), read after all samplers of this iteration",
+        ok = len(new) == 1 and isinstance(new[0][0], STensor) and new[0][0].ndim == 1
+        i_ = z3.Int("i_rec")
+        kept_ok.append(z3.BoolVal(False) if not ok else
+                       z3.ForAll([i_], z3.Implies(z3.And(0 <= i_, i_ < N_IND), new[0][0].fn((i_,)) == READ(z3.StringVal(want[h.label]), z3.IntVal(after), i_))))
+    res.append(("past the burn-in: one draw per variable (+ attachment, regularity), the state's own values read after all samplers of this iteration (unaltered)",
                 z3.Implies(it_no > burn, z3.And(*kept_ok))))
     res.append(("during the burn-in: nothing is recorded", z3.Implies(it_no <= burn, z3.BoolVal(all(burn_ok)))))
     return res
